@@ -497,4 +497,179 @@ theorem gram_det_zero_of_repeated {N n : Nat} (C : Matrix (Fin N) (Fin n) ℝ) (
 theorem maxAbs_pos {l : List ℝ} {x : ℝ} (hx : x ∈ l) (h0 : x ≠ 0) : 0 < maxAbs l :=
   lt_of_lt_of_le (abs_pos.mpr h0) (le_maxAbs hx)
 
+/-! ## the executable solver -/
+
+theorem pickPivot_spec : ∀ (rows : List (List ℝ × ℝ)) (piv : List ℝ × ℝ) (others : List (List ℝ × ℝ)),
+    pickPivot rows = some (piv, others) →
+      others.length + 1 = rows.length ∧ ∀ r, r ∈ rows ↔ r = piv ∨ r ∈ others
+  | [], _, _, h => by simp [pickPivot] at h
+  | r :: rs, piv, others, h => by
+    unfold pickPivot at h
+    cases hp : pickPivot rs with
+    | none =>
+      rw [hp] at h
+      simp only [Option.some.injEq, Prod.mk.injEq] at h
+      obtain ⟨rfl, rfl⟩ := h
+      cases rs with
+      | nil => simp
+      | cons a as =>
+        exfalso
+        unfold pickPivot at hp
+        cases h2 : pickPivot as with
+        | none => rw [h2] at hp; cases hp
+        | some q => rw [h2] at hp; obtain ⟨b, o⟩ := q; simp only at hp; split at hp <;> cases hp
+    | some q =>
+      obtain ⟨best, oth⟩ := q
+      rw [hp] at h
+      simp only at h
+      obtain ⟨hlen, hmem⟩ := pickPivot_spec rs best oth hp
+      split at h
+      · simp only [Option.some.injEq, Prod.mk.injEq] at h
+        obtain ⟨rfl, rfl⟩ := h
+        refine ⟨by simp [← hlen], fun x => ?_⟩
+        simp only [List.mem_cons, hmem]
+      · simp only [Option.some.injEq, Prod.mk.injEq] at h
+        obtain ⟨rfl, rfl⟩ := h
+        refine ⟨by simp [← hlen], fun x => ?_⟩
+        simp only [List.mem_cons, hmem]
+        tauto
+
+theorem dot_vsub_smul (t u xs : List ℝ) (m : ℝ) (n : Nat) (ht : t.length = n) (hu : u.length = n) (hx : xs.length = n) :
+    dot (vsub t (smul m u)) xs = dot t xs - m * dot u xs := by
+  obtain ⟨f, rfl⟩ := exists_ofFn_of_length n t ht
+  obtain ⟨g, rfl⟩ := exists_ofFn_of_length n u hu
+  obtain ⟨x, rfl⟩ := exists_ofFn_of_length n xs hx
+  rw [smul_ofFn, vsub_ofFn, dot_ofFn', dot_ofFn', dot_ofFn']
+  simp [sub_dotProduct, smul_dotProduct]
+
+theorem length_vsub (a b : List ℝ) : (vsub a b).length = min a.length b.length := by simp [vsub]
+theorem length_smul (m : ℝ) (a : List ℝ) : (smul m a).length = a.length := by simp [smul]
+
+/-- soundness of the executable solver: whatever it returns solves every equation of the system -/
+theorem gaussSolveAux_sound : ∀ (n : Nat) (rows : List (List ℝ × ℝ)) (xs : List ℝ),
+    (∀ r ∈ rows, r.1.length = n) → rows.length ≤ n → gaussSolveAux n rows = some xs →
+      xs.length = n ∧ ∀ r ∈ rows, dot r.1 xs = r.2
+  | 0, rows, xs, _, hlen, h => by
+    simp only [gaussSolveAux, Option.some.injEq] at h
+    subst h
+    have : rows = [] := List.length_eq_zero_iff.mp (Nat.le_zero.mp hlen)
+    subst this; simp
+  | n + 1, rows, xs, hw, hlen, h => by
+    unfold gaussSolveAux at h
+    cases hp : pickPivot rows with
+    | none => rw [hp] at h; cases h
+    | some q =>
+      obtain ⟨piv, others⟩ := q
+      rw [hp] at h
+      simp only at h
+      obtain ⟨hl, hmem⟩ := pickPivot_spec rows piv others hp
+      split at h
+      · rename_i hnz
+        rw [isNonzero_real] at hnz
+        -- the pivot row
+        have hpiv : piv.1.length = n + 1 := hw piv ((hmem piv).mpr (Or.inl rfl))
+        obtain ⟨p, ptail, hpe⟩ : ∃ p ptail, piv.1 = p :: ptail := by
+          cases hh : piv.1 with
+          | nil => rw [hh] at hpiv; cases hpiv
+          | cons a as => exact ⟨a, as, rfl⟩
+        have hpt : ptail.length = n := by rw [hpe] at hpiv; simpa using hpiv
+        simp only [hpe, List.headD_cons, List.tail_cons] at h hnz
+        split at h
+        · cases h
+        · rename_i ys hys
+          simp only [Option.some.injEq] at h
+          subst h
+          have hred := gaussSolveAux_sound n _ ys (by
+              intro r hr
+              simp only [List.mem_map] at hr
+              obtain ⟨r0, hr0, rfl⟩ := hr
+              have h0 : r0.1.length = n + 1 := hw r0 ((hmem r0).mpr (Or.inr hr0))
+              simp only [length_vsub, length_smul, List.length_tail, h0, hpt]
+              simp) (by simp; omega) hys
+          obtain ⟨hyl, hyr⟩ := hred
+          refine ⟨by simp [hyl], fun r hr => ?_⟩
+          rcases (hmem r).mp hr with rfl | hro
+          · rw [hpe]
+            simp only [dot]
+            field_simp
+            ring
+          · have h0 : r.1.length = n + 1 := hw r hr
+            obtain ⟨a, t, hre⟩ : ∃ a t, r.1 = a :: t := by
+              cases hh : r.1 with
+              | nil => rw [hh] at h0; cases h0
+              | cons a as => exact ⟨a, as, rfl⟩
+            have htl : t.length = n := by rw [hre] at h0; simpa using h0
+            have := hyr _ (List.mem_map.mpr ⟨r, hro, rfl⟩)
+            simp only [hre, List.headD_cons, List.tail_cons] at this
+            rw [dot_vsub_smul t ptail ys (a / p) n htl hpt hyl] at this
+            rw [hre]
+            simp only [dot]
+            linear_combination this
+      · cases h
+
+theorem map_eq_of_zip {α β : Type} (f : α → β) : ∀ (A : List α) (b : List β), A.length = b.length →
+    (∀ r ∈ A.zip b, f r.1 = r.2) → A.map f = b
+  | [], [], _, _ => rfl
+  | [], _ :: _, h, _ => by simp at h
+  | _ :: _, [], h, _ => by simp at h
+  | a :: A, y :: b, h, hr => by
+    simp only [List.map_cons, List.cons.injEq]
+    exact ⟨hr (a, y) (by simp), map_eq_of_zip f A b (by simpa using h) fun r hr' => hr r (by simp [hr'])⟩
+
+/-- `gaussSolve` on a square system with rows of the right length: if the elimination succeeds the result solves
+the system -/
+theorem gaussSolve_sound (A : List (List ℝ)) (b x : List ℝ) (hsq : A.length = b.length)
+    (hrows : ∀ row ∈ A, row.length = b.length) (h : gaussSolveAux b.length (A.zip b) = some x) :
+    gaussSolve A b = x ∧ x.length = b.length ∧ matVec A x = b := by
+  obtain ⟨h1, h2⟩ := gaussSolveAux_sound b.length (A.zip b) x
+    (fun r hr => hrows r.1 (List.of_mem_zip hr).1) (by simp [hsq]) h
+  refine ⟨by simp [gaussSolve, h], h1, ?_⟩
+  exact map_eq_of_zip (fun row => dot row x) A b hsq h2
+
+/-! ## helpers for the statements of Props/C18 -/
+
+/-- `b' = D b` for some orthogonal matrix `D` of the size of the block -/
+def OrthoImage (b b' : List ℝ) : Prop :=
+  ∃ (n : ℕ) (D : Matrix (Fin n) (Fin n) ℝ) (f : Fin n → ℝ),
+    D ∈ Matrix.orthogonalGroup (Fin n) ℝ ∧ b = List.ofFn f ∧ b' = List.ofFn (D.mulVec f)
+
+theorem dot_self_eq_sum_sq : ∀ b : List ℝ, dot b b = (b.map fun x => x ^ 2).sum
+  | [] => by simp [dot]
+  | x :: xs => by simp [dot, dot_self_eq_sum_sq xs]; ring
+
+theorem OrthoImage.spec {b b' : List ℝ} (h : OrthoImage b b') : b'.length = b.length ∧ dot b' b' = dot b b := by
+  obtain ⟨n, D, f, hD, rfl, rfl⟩ := h
+  refine ⟨by simp, ?_⟩
+  rw [dot_ofFn', dot_ofFn', ortho_dot ((Matrix.mem_orthogonalGroup_iff' (Fin n) ℝ).mp hD)]
+
+/-- degree ≤ 1 harmonics up to scaling, used in the concrete instances -/
+noncomputable def Y1 : Vec3 ℝ → Fin 4 → ℝ := fun v => ![1, v.x, v.y, v.z]
+def irs1 : List MulIr := [(1, 0, 1), (1, 1, -1)]
+
+theorem irs1_guards : irreps 1 1 (-1) = .ok irs1 ∧ firstParity irs1 = .ok 1 ∧ shGuard irs1 = .ok () ∧
+    lmaxOf irs1 = .ok 1 ∧ dimOf irs1 = 4 := by decide
+
+theorem norm_ex : normalize (⟨1, 0, 0⟩ : Vec3 ℝ) = ⟨1, 0, 0⟩ := normalize_unit _ (by simp [Vec3.normSq])
+theorem norm_ey : normalize (⟨0, 1, 0⟩ : Vec3 ℝ) = ⟨0, 1, 0⟩ := normalize_unit _ (by simp [Vec3.normSq])
+
+theorem isNonzero_one : isNonzero (1 : ℝ) = true := (isNonzero_real 1).mpr one_ne_zero
+theorem isNonzero_zero : isNonzero (0 : ℝ) = false := by
+  rw [← Bool.not_eq_true, isNonzero_real]; simp
+
+theorem gram_example :
+    keptC Y1 [(⟨1, 0, 0⟩, 1), (⟨0, 1, 0⟩, 5)] * (keptC Y1 [(⟨1, 0, 0⟩, 1), (⟨0, 1, 0⟩, 5)]).transpose = !![2, 1; 1, 2] := by
+  ext i j
+  fin_cases i <;> fin_cases j <;>
+    simp [keptC, Matrix.mul_apply, Fin.sum_univ_succ, Y1, norm_ex, norm_ey] <;> norm_num
+
+theorem keptPairs_idem {K : Type} [Scalar K] (vectors : List (Vec3 K)) (vals : List K) :
+    keptPairs ((keptPairs vectors vals).map (·.1)) ((keptPairs vectors vals).map (·.2)) = keptPairs vectors vals := by
+  have hz : ∀ l : List (Vec3 K × K), (l.map (·.1)).zip (l.map (·.2)) = l := by
+    intro l; induction l with
+    | nil => rfl
+    | cons a l ih => simp [ih]
+  unfold keptPairs
+  rw [hz, List.filter_filter]
+  simp
+
 end E3nnVerif.SphericalTensor
